@@ -276,6 +276,7 @@ type Interp struct {
 type ufApp struct {
 	args []*Term
 	res  *Term
+	resw []*Term
 }
 
 func (in *Interp) posStr() string {
